@@ -37,7 +37,16 @@ def impl_partition(ver, tv, tp, ev, ep):
     r = netaddr.ip.cidr_partition(t, e)
     assert isinstance(r, tuple) and len(r) == 3
     assert (t._value, t._prefixlen, e._value, e._prefixlen) == (tv, tp, ev, ep)   # arguments are not mutated
-    return [_out(ver, r[0]), _out(ver, r[1]), _out(ver, r[2])]
+    res = [_out(ver, r[0]), _out(ver, r[1]), _out(ver, r[2])]
+    # the same networks handed over as CIDR strings must give the same partition (other argument form)
+    import zlib
+    if zlib.crc32(repr((ver, tv, tp, ev, ep)).encode()) % 3 == 0:
+        r2 = netaddr.ip.cidr_partition(str(t), str(e))
+        assert [_out(ver, r2[0]), _out(ver, r2[1]), _out(ver, r2[2])] == res, "string arguments give a different partition"
+        if tp == gens.W[ver]:
+            r3 = netaddr.ip.cidr_partition(netaddr.IPAddress(tv, ver), e)
+            assert [_out(ver, x) for x in r3] == res, "IPAddress target gives a different partition"
+    return res
 
 
 def impl_exclude(ver, tv, tp, ev, ep):
